@@ -321,6 +321,17 @@ func judgeCarryOver(setupSrc, outSrc []byte, converterNames map[string]bool) [][
 			}
 		}
 	}
+	// 2b. every converter interface is gone: it is replaced by its functions (possibly none)
+	for _, d := range of.Decls {
+		if gd, ok := d.(*ast.GenDecl); ok && gd.Tok == token.TYPE {
+			for _, sp := range gd.Specs {
+				ts := sp.(*ast.TypeSpec)
+				if _, ok := ts.Type.(*ast.InterfaceType); ok && converterNames[ts.Name.Name] {
+					out = append(out, [2]string{"C11|converter-interface-survives", "the converter interface " + ts.Name.Name + " is still declared in the output"})
+				}
+			}
+		}
+	}
 	// 3. no directive survives
 	for _, cg := range of.Comments {
 		for _, c := range cg.List {
